@@ -88,11 +88,17 @@ func vxH_C20_converse() {
 	names := []string{"a"}
 	none := map[string]bool{}
 	var grand [][]vxEnt // what was written to the grandchild a/g
+	wroteEmpty := false
 	nb := 1 + vxChoose(2)
 	for n := 0; n < nb; n++ {
 		b, berr := coll.NewBatch(4, 64)
 		vxAssert("newbatch-ok", berr == nil)
-		shape := vxChoose(4) // 0 parent, 1 child, 2 both, 3 grandchild only
+		shape := vxChoose(5) // 0 parent, 1 child, 2 both, 3 grandchild only, 4 Set("","") only
+		if shape == 4 {
+			// a batch without any key or value bytes
+			vxAssert("batch-op-ok", b.Set([]byte{}, []byte{}) == nil)
+			wroteEmpty = true
+		}
 		if shape == 3 {
 			cb, cerr := b.NewChildCollectionBatch("a", BatchOptions{TotalOps: 2, TotalKeyValBytes: 16})
 			vxAssert("childbatch-ok", cerr == nil)
@@ -140,6 +146,10 @@ func vxH_C20_converse() {
 		ss, _ := store.Snapshot()
 		vxCheckTree("store", ss, ref, K, vxKeyBytes(K), names, none)
 		vxCheckTree("store2", ss, ref, J, vxKeyBytes(J), names, none)
+		if wroteEmpty {
+			ev, eerr := ss.Get([]byte{}, ReadOptions{})
+			vxAssert("store-empty-key-present", eerr == nil && ev != nil && len(ev) == 0)
+		}
 		if len(grand) > 0 {
 			var got []byte
 			if as, _ := ss.ChildCollectionSnapshot("a"); as != nil {
